@@ -108,7 +108,9 @@ where
         max_poly_degree: usize,
     ) -> Result<Self, VerifierError> {
         // infer evaluation domain info
-        let domain_size = max_poly_degree.next_power_of_two() * options.blowup_factor();
+        // a polynomial of degree d has d + 1 coefficients: the evaluation domain is the number of
+        // coefficients rounded up to a power of two, times the blowup factor
+        let domain_size = (max_poly_degree + 1).next_power_of_two() * options.blowup_factor();
         let domain_generator = E::BaseField::get_root_of_unity(domain_size.ilog2());
 
         let num_partitions = channel.read_fri_num_partitions();
